@@ -122,6 +122,20 @@ def gen(chk, tier):
         add(k, "sm3.sum", h="a", **{"in": [], "spare": 0})
         add(k, "sm3.sum", h="b", **{"in": [1, 2, 3], "spare": 64})
         add(k, "sm3.sizes", h="a")
+    # (4) lengths that cannot be reached by hashing: the object is placed (verif hook) just below
+    # 2^29, 2^30 and 2^31 bytes (bit length crossing 2^32, 2^33, 2^34) and continued from there
+    for base in (536870912, 1073741824, 2147483647 - 300, 16777216, 268435456):
+        for delta in (-70, -1, 0, 1):
+            start = base + delta
+            nx = rng.choice([0, 3, 55, 56, 63])
+            start -= start % 64
+            start += nx
+            k = scenario("huge_length")
+            add(k, "sm3.new", h="a")
+            add(k, "sm3.inject", h="a", v=[rng.randrange(65536) for _ in range(16)], x=rb(rng, nx), len=start)
+            add(k, "sm3.sum", h="a", **{"in": [], "spare": 0})
+            add(k, "sm3.write", h="a", data=rb(rng, rng.choice([1, 9, 64, 130])))
+            add(k, "sm3.sum", h="a", **{"in": [], "spare": 0})
     return cmds
 
 
